@@ -224,7 +224,7 @@ def jobs(tier):
     for (nsrc, ns) in ([(1, 2), (2, 2)] if q else [(1, 2), (2, 2), (2, 3), (3, 3)]):
         js.append(job_decomposition(nsrc, ns))
     for images in (False, True):
-        for nsrc in ((1, 2) if q else (1, 2, 3)):
+        for nsrc in (1, 2, 3):
             js.append(job_permutation(nsrc, images, True))
         js.append(job_permutation(2, images, False))
         for (ns, sil) in [(8, None), (8, ('ref', 0, 1)), (8, ('est', 1, 2)), (6, ('ref', 1, 0)), (4, None)]:
